@@ -99,6 +99,7 @@ def mkInstance (lbGiven : Int) (M : Matrix) (mult : Int := 1) : Option Inst :=
   if lbGiven < 0 ∨ lbGiven > LIMIT then none else
   if n ≤ 1 then none else
   if !(M.all (·.length == n)) then none else
+  if !(M.all (·.all (fun v => decide (0 ≤ v)))) then none else   -- `dist < 0` raises
   if !((List.range n).all fun i => entry M i i == 0) then none else
   if !((List.range n).all fun i => decide (rowFar M n i > 0)) then none else
   let ub := sumFar M n
